@@ -450,6 +450,18 @@ func c17DFixedScenarios() []c17DScenario {
 		out = append(out, c17DScenario{Shape: "makefile-only",
 			Main: []c17DItem{it(a("VA", "=", "a")), it(c17DLine{Kind: "undef", Names: []string{"VA"}}), it(third)}})
 	}
+	// a condition in a file from mk/ looks at a variable of the package
+	for _, cnd := range []c17DLine{{Kind: "if", Cond: "defined", CVar: "VA"}, {Kind: "if", Cond: "defined", Neg: true, CVar: "VA"}, {Kind: "if", Cond: "empty", Neg: true, CVar: "VA"}} {
+		for _, loc := range []string{"mk/CAT-reset.mk", "CAT/pa/inc.mk"} {
+			sp := "inc.mk"
+			if loc != "CAT/pa/inc.mk" {
+				sp = "../../" + loc
+			}
+			out = append(out, c17DScenario{Shape: "condition-in-included-file",
+				Main:  []c17DItem{it(a("VA", "=", "a")), inc(0, sp), it(a("VA", "=", "b"))},
+				Frags: []c17DFrag{{loc, append(append([]c17DLine{}, nb...), cnd, a("VB", "=", "a"), c17DLine{Kind: "endif"})}}})
+		}
+	}
 	for _, sp := range []string{"./inc.mk", "../../CAT/pa/inc.mk", "../pa/inc.mk"} {
 		out = append(out, c17DScenario{Shape: "same-file-twice",
 			Main:  []c17DItem{inc(0, "inc.mk"), inc(0, sp), it(a("VB", "=", "${VA}"))},
@@ -714,8 +726,14 @@ func c17DUnit(ctx *Ctx, res *Result, rng *Rng) {
 		n = 15000
 	}
 	var cases []c17DCase
-	for i := 0; i < n; i++ {
-		sc := c17DRandomScenario(rng)
+	fixed := c17DFixedScenarios()
+	for i := 0; i < n+len(fixed); i++ {
+		var sc c17DScenario
+		if i < len(fixed) {
+			sc = fixed[i]
+		} else {
+			sc = c17DRandomScenario(rng)
+		}
 		seen, read := sc.view(true, false, "cat"), sc.view(false, false, "cat")
 		out, pan := c17DRunShim(seen, true)
 		scc := sc
@@ -856,3 +874,120 @@ func c17DReplayRun(ctx *Ctx, res *Result, rep map[string]any) {
 }
 
 var _ = path.Clean
+
+// ---------- extraction cross-check of the new functions ----------
+
+func c17CoqDProgram(p c17DProg) string {
+	opName := map[string]string{"=": "OpAssign", "!=": "OpShell", ":=": "OpEval", "+=": "OpAppend", "?=": "OpDefault"}
+	ls := make([]string, len(p.Lines))
+	for i, l := range p.Lines {
+		body := "DComment"
+		switch l.Kind {
+		case "assign":
+			cs := make([]string, len(l.Val))
+			for k, c := range l.Val {
+				if c.Ref {
+					cs[k] = "Ref " + c17CoqBytes(c.S)
+				} else {
+					cs[k] = "Lit " + c17CoqBytes(c.S)
+				}
+			}
+			body = fmt.Sprintf("(DAssign (mkAssign %s %s [%s]))", c17CoqBytes(l.Var), opName[l.Op], strings.Join(cs, "; "))
+		case "include":
+			body = "DInclude"
+		case "undef":
+			ns := make([]string, len(l.Names))
+			for k, n := range l.Names {
+				ns[k] = c17CoqBytes(n)
+			}
+			body = "(DUndef [" + strings.Join(ns, "; ") + "])"
+		case "if":
+			c := map[string]string{"defined": "(DCDefined " + c17CoqBytes(l.CVar) + ")", "empty": "(DCEmpty " + c17CoqBytes(l.CVar) + ")",
+				"true": "(DCConst true)", "false": "(DCConst false)"}[l.Cond]
+			body = fmt.Sprintf("(DIf %v %s)", l.Neg, c)
+		case "else":
+			body = "DElse"
+		case "endif":
+			body = "DEndif"
+		case "for":
+			body = fmt.Sprintf("(DFor [] %d%%nat)", l.N)
+		case "endfor":
+			body = "DEndfor"
+		}
+		ls[i] = fmt.Sprintf("mkDLine %d %d %v %s", l.File, l.Lineno, c17DInfra(p.Files[l.File]), body)
+	}
+	return "[" + strings.Join(ls, ";\n   ") + "]"
+}
+
+// c17DCrossCheck appends goals about check_pkg, check_file, find_guard and
+// changed_vars_d (hence final_d, unroll, blank) to the vm_compute file; the
+// expected values are the answers of the extracted oracle.
+func c17DCrossCheck(ctx *Ctx, res *Result, sb *strings.Builder) int {
+	rng := NewRng(ctx.Seed ^ 0xd1c)
+	scs := c17DFixedScenarios()
+	if len(scs) > 10 {
+		scs = scs[:10]
+	}
+	for len(scs) < 22 {
+		scs = append(scs, c17DRandomScenario(rng))
+	}
+	type item struct {
+		p    c17DProg
+		file bool
+	}
+	var items []item
+	for _, sc := range scs {
+		items = append(items, item{sc.view(false, false, "cat"), false})
+		if len(sc.Frags) > 0 {
+			items = append(items, item{sc.fragAlone(0, "cat"), true})
+		}
+	}
+	reqs := make([]string, len(items))
+	for i, it := range items {
+		cmd := "chkk"
+		if it.file {
+			cmd = "chkf"
+		}
+		reqs[i] = fmt.Sprintf("%s %d %s", cmd, it.p.fuel(), it.p.words())
+	}
+	ans, err := runOracle(ctx, "c17", reqs)
+	if err != nil {
+		res.Broken = err.Error()
+		return 0
+	}
+	sb.WriteString("From PV Require Import Model.RedundantDir Spec.MakeEvalDir Spec.VerdictSoundDir.\n")
+	n := 0
+	for i, it := range items {
+		f := strings.Fields(ans[i])
+		fmt.Fprintf(sb, "Definition dp%d : dprogram :=\n  %s.\n", i, c17CoqDProgram(it.p))
+		fn := "check_pkg"
+		if it.file {
+			fn = "check_file"
+		}
+		if len(f) == 1 && f[0] == "panic" {
+			fmt.Fprintf(sb, "Goal %s dp%d = Panic. Proof. vm_compute. reflexivity. Qed.\n", fn, i)
+			n++
+			continue
+		}
+		if len(f) < 2 || f[0] != "ok" {
+			res.Broken = "oracle answer " + q(ans[i])
+			return 0
+		}
+		g := "None"
+		if f[1] != "g-" {
+			g = "(Some " + f[1][1:] + "%nat)"
+		}
+		fmt.Fprintf(sb, "Goal find_guard dp%d = %s. Proof. vm_compute. reflexivity. Qed.\n", i, g)
+		fmt.Fprintf(sb, "Goal %s dp%d = Ok %s. Proof. vm_compute. reflexivity. Qed.\n", fn, i, c17CoqVerdictList(f[2:]))
+		var fl, snd []string
+		for _, w := range f[2:] {
+			x := strings.Split(w, ":")
+			fl = append(fl, x[0]+"%nat")
+			snd = append(snd, map[bool]string{true: "true", false: "false"}[x[3] == "S"])
+		}
+		fmt.Fprintf(sb, "Goal map (fun i => match changed_vars_d %d dp%d [i] with [] => true | _ => false end) [%s] = [%s]. Proof. vm_compute. reflexivity. Qed.\n",
+			it.p.fuel(), i, strings.Join(fl, "; "), strings.Join(snd, "; "))
+		n += 3
+	}
+	return n
+}
